@@ -16,6 +16,7 @@ mod quake;
 mod reader;
 mod real;
 mod settings;
+mod unreal2;
 mod valve;
 mod views;
 
@@ -37,6 +38,7 @@ fn entries() -> Vec<(&'static str, EntryFn)> {
     v.extend(idcheck::entries());
     v.extend(quake::entries());
     v.extend(real::entries());
+    v.extend(unreal2::entries());
     v
 }
 
